@@ -7,7 +7,7 @@ from typing_extensions import override
 
 from ..decodestate import DecodeState
 from ..encodestate import EncodeState
-from ..exceptions import odxrequire
+from ..exceptions import DecodeError, odxrequire
 from ..odxlink import OdxDocFragment
 from ..odxtypes import DataType, ParameterValue
 from ..utils import dataclass_fields_asdict
@@ -58,6 +58,22 @@ class ReservedParameter(Parameter):
 
     @override
     def _decode_positioned_from_pdu(self, decode_state: DecodeState) -> ParameterValue:
+        if self.bit_length > 64:
+            # reserved areas (e.g., padding) may be larger than the
+            # largest integer which can be extracted from a PDU
+            bit_pos = decode_state.cursor_bit_position
+            byte_pos = decode_state.cursor_byte_position
+            byte_length = (bit_pos + self.bit_length + 7) // 8
+            if byte_pos + byte_length > len(decode_state.coded_message):
+                raise DecodeError("Expected a longer message.")
+
+            raw_value = int.from_bytes(
+                decode_state.coded_message[byte_pos:byte_pos + byte_length], "little")
+            decode_state.cursor_byte_position += byte_length
+            decode_state.cursor_bit_position = 0
+
+            return (raw_value >> bit_pos) & ((1 << self.bit_length) - 1)
+
         return decode_state.extract_atomic_value(
             bit_length=self.bit_length,
             base_data_type=DataType.A_UINT32,
